@@ -48,7 +48,7 @@ def gen_arr(rng, maxops):
         elif c < 0.96:
             ops.append(rng.choice(["first", "last"]))
         else:
-            ops.append(rng.choice(["len", "len", "ss:%d" % rng.choice([0, 1, 3, 4, 5, 8, 9, 16, 17, size, size + 1, max(0, size - 1)])]))
+            ops.append(rng.choice(["len", "sort", "sort", "ss:%d" % rng.choice([0, 1, 3, 4, 5, 8, 9, 16, 17, size, size + 1, max(0, size - 1)])]))
     if rng.random() < 0.4:
         ops.append("fin")
     if rng.random() < 0.3:
